@@ -305,9 +305,23 @@ def correspondence(ctx):
             push("dataview_rich", n, st, rd, dict(meta, impl="sdv", what="SeqDataView.to_rich_dict"))
 
     model = ctx.driver.batch(reqs)
-    for (cmd, rq), real, mod, meta in zip(reqs, reals, model, metas):
+    # Three modelled branches mirror code that loses information (see the `_partial` / `_counter` theorems).  If the
+    # implementation is repaired, it must then agree with the branch the full-strength theorem is about instead.
+    REPAIRED = {"view_copy_new": "view_from_rich", "copy_new": "copy_old", "dataview_rich": "view_rich"}
+    alt_idx = [i for i, (c, rq) in enumerate(reqs) if rq["path"] in REPAIRED]
+    alts = dict(zip(alt_idx, ctx.driver.batch([("rebase", dict(reqs[i][1], path=REPAIRED[reqs[i][1]["path"]])) for i in alt_idx])))
+    for i, ((cmd, rq), real, mod, meta) in enumerate(zip(reqs, reals, model, metas)):
         out["evaluations"] += 1
         bump(out, "path", rq["path"])
+        if real != mod and i in alts:
+            alt = alts[i]
+            if rq["path"] == "dataview_rich" and isinstance(real, dict) and "seq" in real:
+                alt = dict(alt, offset=mod.get("offset"))
+            if rq["path"] == "view_copy_new" and isinstance(alt, dict) and "view" in alt and isinstance(real, dict) and "view" in real:
+                pass
+            if real == alt:
+                bump(out, "repaired_branch", rq["path"])
+                continue
         if real != mod:
             add_failure(out, "corr", f"re-basing model differs from {meta['impl']} {meta['what']}", dict(meta, view={k: rq[k] for k in ("start", "stop", "step", "offset", "seq_len")}, path=rq["path"]), mod, real, confirmed=False)
             continue
@@ -394,6 +408,8 @@ PREDICATES = {
     "seq_has_offset": lambda rec: bool(rec.get("offset")) or any(o[0] == "copy" for o in rec.get("ops", [])),
     "view_not_plain": lambda rec: bool(rec.get("ops")) or any(o[0] == "rc" for o in rec.get("coll", {}).get("ops", [])),
     "lf_named": lambda rec: bool(rec.get("name")),
+    # an alignment-level (on_alignment=True) feature on an alignment that was then sliced / reverse complemented
+    "aln_feature_and_view": lambda rec: any(f.get("on_alignment") for f in rec.get("features", [])) and any(o[0] in ("s", "rc") for o in rec.get("ops", [])),
     "model_in": lambda rec, names=(): rec.get("name") in names,
 }
 
